@@ -29,3 +29,6 @@ Proof. reflexivity. Qed.
 Definition n64 (hi lo : int) : N := Z.to_N (Uint63.to_Z hi * 4294967296 + Uint63.to_Z lo).
 Example n64_ex : n64 0xffffffff 0xffffffff = (2 ^ 64 - 1)%N.
 Proof. vm_compute. reflexivity. Qed.
+
+Definition z64 (neg : bool) (hi lo : int) : Z :=
+  let m := (Uint63.to_Z hi * 4294967296 + Uint63.to_Z lo)%Z in if neg then (- m)%Z else m.
